@@ -21,7 +21,7 @@ def mutants(path, text):
     for i in range(end):
         l = lines[i]
         st = l.strip()
-        only_new = "--swap" in sys.argv or "--ror" in sys.argv or "--const" in sys.argv
+        only_new = "--swap" in sys.argv or "--ror" in sys.argv or "--const" in sys.argv or "--method" in sys.argv
         if not only_new and st.endswith(";") and not st.startswith(("let ", "use ", "//", "pub ", "type ", "return")) and "(" in st and l.startswith("    "):
             out.append(("del %d: %s" % (i + 1, st[:70]), "\n".join(lines[:i] + lines[i + 1:])))
         # swap two adjacent call statements of the same block (ordering mutants)
@@ -38,6 +38,30 @@ def mutants(path, text):
             for (a, b_) in ((" < ", " <= "), (" <= ", " < "), (" > ", " >= "), (" >= ", " > "), (" == ", " != "), (" != ", " == "), (" && ", " || "), (" || ", " && ")):
                 if a in l and "->" not in l and "::<" not in l:
                     out.append(("ror %d: %s [%s->%s]" % (i + 1, st[:60], a.strip(), b_.strip()), "\n".join(lines[:i] + [l.replace(a, b_, 1)] + lines[i + 1:])))
+        # sibling-method replacement
+        if "--method" in sys.argv and l.startswith("    ") and not st.startswith(("//", "fn ", "pub ", "impl", "where", "use ", "#")):
+            for (a, b_) in ((".pop_front()", ".pop_back()"), (".pop_back()", ".pop_front()"), (".push_back(", ".push_front("), (".push_front(", ".push_back("),
+                            (".call_and_clear_if_available(", ".call_if_available("), (".call_if_available(", ".call_and_clear_if_available("),
+                            (".read()", ".write()"), (".is_some()", ".is_none()"), (".is_none()", ".is_some()"), (".first()", ".last()"), (".last()", ".first()"),
+                            (".iter()", ".iter().rev()"), (".into_iter()", ".into_iter().rev()"), (" < ", " > "), (" > ", " < "), (".is_empty()", ".len() == 1"),
+                            (".sink_complete(&serial)", ".sink_complete_force()"), (".sink_complete_force()", ".finalize()"), (".pop()", ".first().cloned()"),
+                            (".notify_one()", ".notify_all()"), (".take()", ".clone()"), (".unwrap_or(false)", ".unwrap_or(true)"), (".unwrap_or(true)", ".unwrap_or(false)"),
+                            (".min(", ".max("), (".max(", ".min("), ("Some(", "None.or(Some("), (".saturating_sub(", ".saturating_add("),
+                            (".inner_subscribe(", ".subscribe_keep("), (".clear()", ".len()")):
+                if a in l:
+                    rep = l.replace(a, b_, 1)
+                    if b_ == "None.or(Some(":
+                        # close the extra parenthesis right after the matching one of Some(
+                        i0 = l.index(a) + len(a)
+                        depth_, j0 = 1, i0
+                        while j0 < len(l) and depth_:
+                            depth_ += {"(": 1, ")": -1}.get(l[j0], 0)
+                            j0 += 1
+                        if depth_:
+                            continue
+                        rep = l[:l.index(a)] + "None.or(Some(" + l[i0:j0] + ")" + l[j0:]
+                        rep = rep.replace("None.or(Some(", "{ let _unused = (", 1)[:0] or (l[:l.index(a)] + "None" + l[j0:])
+                    out.append(("method %d: %s [%s->%s]" % (i + 1, st[:60], a, b_ if b_ != "None.or(Some(" else "None"), "\n".join(lines[:i] + [rep] + lines[i + 1:])))
         # constant / arithmetic replacement
         if "--const" in sys.argv and l.startswith("    ") and not st.startswith(("//", "fn ", "pub ", "impl", "where", "use ", "#")):
             for mm in re.finditer(r"(?<![\w.])(\d+)(?![\w.])", l):
